@@ -19,7 +19,7 @@ MODS = None
 
 NETS = {
     4: [('198.51.100.0/24', '203.0.113.128/25'), ('192.168.0.1/32', '192.168.0.2/32'), ('10.0.0.0/8', '0.0.0.0/0')],
-    6: [('2001:db8:1::/48', '2001:db8:2::/64')],
+    6: [('2001:db8:1::/48', '2001:db8:2::/64'), ('::/0', '2001:db8:2::/64'), ('2001:db8:1::/48', '::/0'), ('::/16', '::1/128')],
 }
 
 
@@ -353,6 +353,7 @@ SHAPES = {
     'one': [[(4, 0, 1, 'esp')]],
     'two_entries': [[(4, 0, 1, 'esp'), (4, 1, 0, 'ah')]],
     'two_conns': [[(4, 2, 1, 'esp')], [(4, 1, 0, 'esp'), (6, 0, 1, 'esp')]],
+    'v6_everything': [[(6, 1, 1, 'esp'), (6, 2, 1, 'esp'), (6, 3, 0, 'ah')]],
 }
 
 
